@@ -120,6 +120,10 @@ class Cache:
             for key in keys:
                 self._update_hash(key)
                 self._update_hash(arg[key])
+        elif hasattr(arg, "__array__") and not isinstance(arg, np.generic):
+            # array-likes that are not ndarrays (HDF5 datasets, feature
+            # objects of a dataset): str() names the object, not its data
+            self._update_hash(np.asarray(arg))
         else:
             self._update_hash_chunk(type(arg).__name__.encode("utf-8"),
                                     str(arg).encode('utf-8'))
